@@ -111,6 +111,9 @@ pub enum Op {
     Panic,
     /// clone own stored handle k even though its target is dead, then print AFTER-CLONE (C16)
     CloneDead(usize),
+    /// inside a destructor: `clone_from` own stored handle k (target already destroyed) from another
+    /// own stored handle to the same destroyed target (from a fresh live handle if there is none)
+    CloneFromDead(usize),
     /// drop own stored handle k whose target is dead (C16, drop-only variant)
     DropDead(usize),
     /// inside a destructor: downgrade own stored handle k (its target may be a dying peer or the
@@ -203,6 +206,7 @@ impl fmt::Display for Op {
             ),
             Op::Panic => write!(f, "panic"),
             Op::CloneDead(k) => write!(f, "clonedead:{}", k),
+            Op::CloneFromDead(k) => write!(f, "clonefromdead:{}", k),
             Op::DropDead(k) => write!(f, "dropdead:{}", k),
             Op::DowngradeOwn(k) => write!(f, "downgradeown:{}", k),
             Op::Shallow(o) => write!(f, "shallow:{}", o),
@@ -277,6 +281,7 @@ pub fn parse_op(s: &str) -> Option<Op> {
         "decstrong" => Op::DecStrong(u(1)?),
         "panic" => Op::Panic,
         "clonedead" => Op::CloneDead(u(1)?),
+        "clonefromdead" => Op::CloneFromDead(u(1)?),
         "dropdead" => Op::DropDead(u(1)?),
         "downgradeown" => Op::DowngradeOwn(u(1)?),
         "shallow" => Op::Shallow(o(1)?),
